@@ -28,7 +28,9 @@ def runs(items):
 def encode_inline(f, text):
     """returns (text, children) for a text:p"""
     if f["spans"]:
-        return None, [Node("text:span", text=text)]
+        # the span wraps whatever the other features make of the text: white-space elements end up inside the span
+        inner_text, inner_children = encode_inline(dict(f, spans=False), text)
+        return None, [Node("text:span", text=inner_text, children=inner_children)]
     if not f["whitespace"]:
         return (text or None), []
     head = None
